@@ -127,6 +127,112 @@ theorem snapshot_requests_le (root : Root) (ts : Timestamp) (st : St) :
               simp only [reqs_log_nonreq, this, reqs_req, List.length_cons, Nat.le_refl]
     · simp [reqs_req]
 
+theorem loadRoot_requests_le (shipped : Option Root) (st : St) :
+    (loadRoot cfg srv shipped st).2.reqs.length ≤ st.reqs.length + cfg.limits.maxRootUpdates := by
+  unfold loadRoot
+  split
+  · simp
+  · rename_i r0
+    split
+    · simp
+    · simp only
+      split
+      · rename_i e st1 hl
+        exact root_requests_le hl
+      · rename_i r1 st1 hl
+        have hb := root_requests_le hl
+        have hg := expiryGate_reqs (cfg := cfg) .root r1.expires st1
+        split
+        · rename_i e st2 h2
+          rw [h2] at hg; simp only at hg; simp only [hg]; exact hb
+        · rename_i st2 h2
+          rw [h2] at hg; simp only at hg
+          split
+          · simp only [recordRoot, clearOnline, St.reqs, List.filterMap_cons] at hg ⊢
+            simp only [St.reqs] at hb; rw [hg]; exact hb
+          · simp only [recordRoot, St.reqs, List.filterMap_cons] at hg ⊢
+            simp only [St.reqs] at hb; rw [hg]; exact hb
+
+/-- the top-level targets file is one request; the delegation graph below it costs at most one request
+per entry of the snapshot -/
+theorem targets_requests_le (root : Root) (snap : Snapshot) (st : St) :
+    (loadTargets cfg srv root snap st).2.reqs.length ≤ st.reqs.length + 1 + snap.metas.length := by
+  unfold loadTargets
+  split
+  · simp; omega
+  · rename_i m hm
+    simp only
+    split
+    · simp [reqs_req]
+    · rename_i doc hf
+      split
+      · simp [reqs_req]
+      · split
+        · simp [reqs_req]
+        · split
+          · simp [reqs_req]
+          · have hg := expiryGate_reqs (cfg := cfg) .targets doc.expires
+              (st.req (.targets (versioned root.consistent m.version)) (m.length.getD cfg.limits.maxTargetsSize))
+            split
+            · rename_i e st1 h
+              rw [h] at hg; simp only at hg; simp [hg, reqs_req]
+            · rename_i st1 h
+              rw [h] at hg; simp only at hg
+              have hch : ∀ s : St, (loadChildren cfg srv snap root.consistent doc s).2.reqs.length ≤ s.reqs.length + snap.metas.length := by
+                intro s
+                unfold loadChildren
+                cases doc.deleg with
+                | none => simp
+                | some d => exact (role_requests_le snap root.consistent d s).1
+              have h2 := hch { ds := { st1.ds with tgt := .doc doc }, log := .dsCreate "targets" { st1.ds with tgt := .doc doc } :: st1.log }
+              rw [reqs_log_nonreq, hg, reqs_req] at h2
+              simp only [List.length_cons] at h2
+              split
+              · rename_i e st2 heq; rw [heq] at h2; simp only at h2 ⊢; omega
+              · rename_i ch vis st2 heq
+                rw [heq] at h2; simp only at h2
+                split <;> (simp only; omega)
+    · simp [reqs_req]
+
+/-- **C09.f (the whole cycle).** Whatever the repository serves and however the cycle ends, it issues at
+most `max_root_updates` root requests, three requests for timestamp, snapshot and targets, and one
+request per entry of a snapshot document the repository serves (`n = 0` when the cycle never got as far
+as accepting a snapshot). -/
+theorem cycle_requests_bounded (shipped : Option Root) (st : St) :
+    ∃ n, (n = 0 ∨ ∃ name f sn, srv.get name = .file f ∧ f.content = .snapshot sn ∧ n = sn.metas.length) ∧
+      (cycle cfg srv shipped st).2.reqs.length ≤ st.reqs.length + cfg.limits.maxRootUpdates + 3 + n := by
+  unfold cycle
+  have h1 := loadRoot_requests_le (cfg := cfg) (srv := srv) shipped st
+  split
+  · rename_i e s1 e1
+    rw [e1] at h1
+    exact ⟨0, Or.inl rfl, by simp only at h1 ⊢; omega⟩
+  · rename_i root s1 e1
+    rw [e1] at h1; simp only at h1
+    have h2 := timestamp_requests_le (cfg := cfg) (srv := srv) root s1
+    split
+    · rename_i e s2 e2
+      rw [e2] at h2
+      exact ⟨0, Or.inl rfl, by simp only at h2 ⊢; omega⟩
+    · rename_i ts s2 e2
+      rw [e2] at h2; simp only at h2
+      have h3 := snapshot_requests_le (cfg := cfg) (srv := srv) root ts s2
+      split
+      · rename_i e s3 e3
+        rw [e3] at h3
+        exact ⟨0, Or.inl rfl, by simp only at h3 ⊢; omega⟩
+      · rename_i sn s3 e3
+        rw [e3] at h3; simp only at h3
+        obtain ⟨m, _, hf, _, _⟩ := (loadSnapshot_ok e3).pinned
+        obtain ⟨f, hget, hcont, _, _⟩ := C05.fetchFile_ok hf
+        have h4 := targets_requests_le (cfg := cfg) (srv := srv) root sn s3
+        refine ⟨sn.metas.length, Or.inr ⟨_, f, sn, hget, hcont, rfl⟩, ?_⟩
+        split
+        · rename_i e s4 e4
+          rw [e4] at h4; simp only at h4 ⊢; omega
+        · rename_i t s4 e4
+          rw [e4] at h4; simp only at h4 ⊢; omega
+
 /-! ### The defects that were repaired
 
 (1) `load_delegations` had no memory of the roles it had loaded: a role delegating to itself made
